@@ -1,2 +1,81 @@
-Theorem C03_placeholder : True. Proof. exact I. Qed.
-Print Assumptions C03_placeholder.
+(* C03 — Redcode source assembles to the instructions it denotes.
+   Compile.compile_warrior is the literal model of CompileWarrior (lexer, FOR
+   expander, parser, compiler; run against gmars on every run), Render.render
+   the surface syntax of an abstract program under a style number, and
+   Meaning.meaning what the program denotes, computed without gmars. *)
+From GM Require Import Base Text Token Lexer Scanner ExprSpec ExprEval Parser Compile Sim Prog Meaning Render AsmSpec
+     C03Proof C06Proof C09Proof.
+Open Scope Z_scope.
+
+(* the property at full strength, on the model *)
+Definition C03_full_statement : Prop :=
+  forall s cfg p code start,
+    validate cfg = true ->
+    meaning (mconf_of cfg) p = MOk code start ->
+    exists meta, compile_warrior cfg (render s p) = COk code start meta.
+
+(* proved, at the compile stage (from parsed source lines to instructions): *)
+
+(* omitted modifiers take the dialect's defaults: the '94 table of load.go is the reference table,
+   for all 17 x 8 x 8 combinations; the '88 table is the reference table wherever it accepts *)
+Theorem C03_default_modifiers_partial :
+  (forall o am bm, op_mode_94 o am bm = default_modifier_94 o am bm) /\
+  (forall o am bm md, is88mode am = true -> is88mode bm = true ->
+     op_mode_88 o am bm = Some md -> implied_modifier_88 o am bm = Some md) /\
+  (forall o am bm md, implied_modifier_88 o am bm = Some md -> op_mode_88 o am bm = Some md).
+Proof.
+  split; [exact defaults_94|]. split.
+  - intros o am bm md. apply op_mode_88_legal. right. exact I.
+  - intros o am bm md H. apply (implied_88_facts o am bm md H).
+Qed.
+Print Assumptions C03_default_modifiers_partial.
+
+(* a label used as an operand becomes its offset from the referring instruction, reduced into [0, M) *)
+Theorem C03_label_offset_partial :
+  forall values labels se l L line m f,
+    lab_find l labels = Some L -> sym_find l values = None -> 0 < m <= 2147483648 ->
+    exists toks v,
+      expand_expression (S (S f)) m (mkC values labels se) line [mkT tokText l] = Some (Some toks) /\
+      evaluate_expression toks = EOk v /\
+      norm_field v m = Z.to_N ((L - line) mod m).
+Proof. exact label_offset. Qed.
+Print Assumptions C03_label_offset_partial.
+
+(* EQU names are substituted textually, token by token, wherever they occur in an expression *)
+Theorem C03_equ_textual_partial :
+  forall m c line a b,
+    expand_pass m c line (a ++ b) =
+    match expand_pass m c line a, expand_pass m c line b with Some x, Some y => Some (x ++ y) | _, _ => None end /\
+    forall k v, sym_find k (c_values c) = Some v -> expand_pass m c line [mkT tokText k] = Some v.
+Proof.
+  intros m c line a b. split.
+  - rewrite !expand_pass_tokenwise. apply expand_all_app.
+  - intros k v H. rewrite expand_pass_tokenwise. cbn [expand_all expand_tok t_typ t_val]. rewrite H. rewrite app_nil_r. reflexivity.
+Qed.
+Print Assumptions C03_equ_textual_partial.
+
+(* mnemonics, modifiers and pseudo-ops are recognised in any letter case *)
+Theorem C03_letter_case_partial :
+  (forall s k o, opcode_of_text (recase s k (opcode_name o)) = Some o) /\
+  (forall s k md, opmode_of_text (recase s k (opmode_name md)) = Some md) /\
+  (forall s k kw, is_pseudo_text (recase s k kw) = is_pseudo_text kw).
+Proof. split; [exact opcode_any_case|]. split; [exact opmode_any_case|exact pseudo_any_case]. Qed.
+Print Assumptions C03_letter_case_partial.
+
+(* the entry point of an accepted program is the value of its ORG / END expression (0 when there is none),
+   and the metadata captured by the parser is returned unchanged *)
+Theorem C03_entry_point_partial :
+  forall cfg lines meta code start meta',
+    compile cfg lines meta = COk code start meta' ->
+    exists resolved se,
+      let c0 := load_symbols cfg lines in
+      let c := mkC resolved (c_labels c0) (c_startexpr c0) in
+      expand_expression (expand_fuel c) (Z.of_N (c_size cfg)) c 0 (c_startexpr c0) = Some (Some se) /\
+      evaluate_expression se = EOk start /\ meta' = meta.
+Proof. exact entry_point. Qed.
+Print Assumptions C03_entry_point_partial.
+
+(* missing: the lexer / parser stages (independence from spacing, blank and comment lines, colon suffixes,
+   label spelling, EQU placement) and the composition into C03_full_statement.  These are decided on every
+   run by the two-stage correspondence: generated abstract programs are rendered under several styles by the
+   extracted Render, assembled by gmars and by the extracted model, and compared with the extracted Meaning. *)
